@@ -221,7 +221,8 @@ def main(argv=None) -> int:
         "extra": extra,
     }
     wall = time.time() - t0
-    if not args.only:
+    foreign = os.path.realpath(os.environ.get("VERIF_REPO", "/repo")) != "/repo" or os.environ.get("VERIF_NO_EVIDENCE")
+    if not args.only and not foreign:
         path = write_evidence(prop, tier, seed, cov, getattr(mod, "ASSUMPTIONS", []), wall, len(new))
     print(
         f"[{prop}] states={states} transitions={transitions} executions={executions} "
